@@ -30,4 +30,11 @@ for d in sorted(os.listdir(V + '/seeded')):
     json.dump(meta, open(mp, 'w'), indent=1)
     rows.append((d, pid, 'exit %d' % r.returncode, sorted(set(o[0] for o in obs)), native, len(viol)))
     print(rows[-1], flush=True)
-json.dump(rows, open(V + '/seeded/RESULTS.json', 'w'), indent=1)
+old = {}
+rp = V + '/seeded/RESULTS.json'
+if os.path.exists(rp):
+    for r in json.load(open(rp)):
+        old[r[0]] = r
+for r in rows:
+    old[r[0]] = list(r)
+json.dump([old[k] for k in sorted(old)], open(rp, 'w'), indent=1)
